@@ -23,7 +23,14 @@ PAIRS = [
     ('role:n or role:x', 'role:o'),
     ('not role:o', 'role:o'),
     ('role:n', '(role:n)'),
+    # the new default contains the old one textually as an operand
+    ('role:o and role:x', 'role:o'),
+    ('role:o or role:x', 'role:o'),
+    ('role:x and (role:o or role:n)', 'role:o or role:n'),
+    ('not role:o and role:x', 'not role:o'),
+    ('role:o', 'role:o and role:x'),
 ]
+QUICK_PAIRS = [0, 1, 2, 3, 4, 9, 10, 13]
 ROLES = ['n', 'o', 'x', 'vn', 'vo', 'n2', 'n3']
 OLD_OVERRIDES = ['absent', 'arbitrary', 'alias-first', 'alias-own',
                  'alias-spaced']
@@ -180,7 +187,7 @@ def run_table(ctx, pair, nshare, renamed, keeper=False):
 
 
 def cubes_table(tier, seed):
-    pairs = range(5) if tier == 'quick' else range(len(PAIRS))
+    pairs = QUICK_PAIRS if tier == 'quick' else range(len(PAIRS))
     shares = (1, 2) if tier == 'quick' else (1, 2, 3)
     out = []
     for p in pairs:
@@ -205,7 +212,7 @@ def evidence(tier):
                    'override in %s x location {main file, policy.d, split} '
                    'x main file present/absent x 1..%d new policies sharing '
                    'the predecessor; all subsets of roles %s' % (
-                       5 if tier == 'quick' else len(PAIRS), OLD_OVERRIDES,
+                       len(QUICK_PAIRS) if tier == 'quick' else len(PAIRS), OLD_OVERRIDES,
                        2 if tier == 'quick' else 3, ROLES)},
         'symbols': ['creds.<role>: Bool', 'enforce_new_defaults, '
                     'new_override, main_present: Bool',
